@@ -252,6 +252,14 @@ class Enum:
 
 
 @dataclass
+class Struct:
+    """Copy `struct NAME { fields }` from a source file (attributes/comments dropped, fields made pub)."""
+    name: str
+    source: str | None = None
+    derive: str = "#[derive(Clone, Copy)]"
+
+
+@dataclass
 class Block:
     """Cut the `{ .. }` block that follows the first match of `anchor` inside fn `within` and wrap it as a function (rewrite R11b).
     What is dropped is exactly what the rewrites say; the wrapper adds `prologue` before and `epilogue` after the block."""
@@ -376,6 +384,17 @@ def extract_fn(repo: Path, unit: VUnit, f: Fn) -> tuple[str, dict]:
         clauses += "\n    decreases " + f.decreases + ","
     text = f"{f.attrs}{sig}{clauses}\n{body}\n"
     return text, info
+
+
+def extract_struct(repo: Path, unit: VUnit, e: Struct) -> str:
+    src = (repo / (e.source or unit.source)).read_text()
+    m = re.search(r"\bstruct\s+" + re.escape(e.name) + r"\s*\{", src)
+    if not m:
+        raise LostAnchor(f"struct {e.name} not found")
+    j = src.find("}", m.end())
+    body = strip_r1(src[m.end() - 1:j + 1])
+    body = re.sub(r"(^|\n)(\s*)(?:pub(?:\([a-z]+\))?\s+)?(\w+)\s*:", r"\1\2pub \3:", body)
+    return f"{e.derive}\npub struct {e.name} {body}\n"
 
 
 def extract_enum(repo: Path, unit: VUnit, e: Enum) -> str:
@@ -646,6 +665,8 @@ def generate(repo: Path, unit: VUnit) -> tuple[str, list, dict]:
             parts.append((f"const {it.name}", extract_const(repo, unit, it)))
         elif isinstance(it, Enum):
             parts.append((f"enum {it.name}", extract_enum(repo, unit, it)))
+        elif isinstance(it, Struct):
+            parts.append((f"struct {it.name}", extract_struct(repo, unit, it)))
         elif isinstance(it, Block):
             text, binfo = extract_block(repo, unit, it)
             info["functions"][it.name] = binfo
